@@ -4,6 +4,7 @@ import (
 	"fmt"
 	"go/token"
 	"go/types"
+	"sort"
 	"strings"
 
 	"yv/internal/prog"
@@ -668,6 +669,210 @@ func init() {
 					n++
 					x.guardedBool(fmt.Sprintf("func=%s true#%d local-or-covered", prog.FnName(fn), i+1), s, append(emptyVV(fn), Cmp{L: entry, R: lamportOf, Want: GE}))
 				}
+			}
+		}})
+}
+
+func init() {
+	register(&Rule{ID: "VV.pass", Min: 25, Text: "the operation's version vector is threaded unchanged: in pkg/document (change, operations, crdt, document) a function that receives a time.VersionVector (as a parameter or, for a closure, from its enclosing function) and calls something that takes one passes its own — never nil, an empty vector or another vector; a callee that silently runs 'as if local' treats every node as known and drops the concurrency guards on one replica only. Functions that have no vector of their own are the origins and are listed",
+		Run: func(x *Ctx) {
+			vvT := x.P.Named(timePkg + ".VersionVector")
+			if vvT == nil {
+				x.C.Unresolved(x.id(), timePkg+".VersionVector")
+				return
+			}
+			isVV := func(t types.Type) bool { return isNamed(t, vvT) }
+			n := 0
+			origins := map[string]int{}
+			for _, fn := range x.P.FuncsIn(crdtPkg, opsPkg, docPkg, "pkg/document/change") {
+				if o := fn.Origin(); o != nil && o != fn {
+					continue
+				}
+				if strings.Contains(prog.FnName(fn), "change.ID)") {
+					continue // clock arithmetic of the change ID itself (K.vv), not the hand-off of an operation's vector
+				}
+				// the function's own vectors: parameters and free variables (transitively: a closure's free var is the parent's parameter)
+				own := func(v ssa.Value) bool {
+					return prog.Reaches(v, func(w ssa.Value) bool {
+						switch t := w.(type) {
+						case *ssa.Parameter:
+							return isVV(t.Type())
+						case *ssa.FreeVar:
+							if isVV(t.Type()) {
+								return true
+							}
+							if pt, ok := t.Type().(*types.Pointer); ok && isVV(pt.Elem()) {
+								return true
+							}
+						}
+						return false
+					})
+				}
+				has := false
+				for _, pm := range fn.Params {
+					if isVV(pm.Type()) {
+						has = true
+					}
+				}
+				for _, fv := range fn.FreeVars {
+					if isVV(fv.Type()) {
+						has = true
+					} else if pt, ok := fv.Type().(*types.Pointer); ok && isVV(pt.Elem()) {
+						has = true
+					}
+				}
+				cnt := map[string]int{}
+				for _, c := range prog.CallsIn(fn) {
+					cc := c.Common()
+					if _, isB := cc.Value.(*ssa.Builtin); isB {
+						continue
+					}
+					name := "dynamic"
+					if cc.IsInvoke() {
+						name = cc.Method.Name()
+					} else if o := prog.CallObj(c); o != nil {
+						name = o.Name()
+					}
+					args := cc.Args
+					for j, a := range args {
+						if !isVV(a.Type()) {
+							continue
+						}
+						if !cc.IsInvoke() && j == 0 && cc.Signature().Recv() != nil {
+							continue // a method of the vector itself
+						}
+						if !has {
+							origins[prog.FnName(fn)+" → "+name]++
+							continue
+						}
+						n++
+						cnt[name]++
+						x.check(own(a), fmt.Sprintf("func=%s call=%s#%d passes-own-vector", prog.FnName(fn), name, cnt[name]), x.pos(c),
+							"the callee receives the caller's own version vector", "the callee is handed "+a.String()+" instead of the version vector this function received: on the replica that applies the operation remotely the callee runs as if the edit were local")
+					}
+				}
+			}
+			x.C.Count("version-vector hand-offs", n)
+			// the origin of a remote operation's vector: Change.Execute hands every operation the vector of the change's own ID
+			if ce := x.fn("pkg/document/change.(*Change).Execute"); ce != nil {
+				idVV := x.P.Field("pkg/document/change.ID.versionVector")
+				i := 0
+				for _, c := range prog.CallsIn(ce) {
+					cc := c.Common()
+					if !cc.IsInvoke() || cc.Method.Name() != "Execute" {
+						continue
+					}
+					for _, a := range cc.Args {
+						if !isVV(a.Type()) {
+							continue
+						}
+						i++
+						ok := idVV != nil && (prog.LoadedField(a) == idVV || isFieldVal(a, idVV)) && prog.DependsOn(a, func(w ssa.Value) bool { return w == ssa.Value(ce.Params[0]) })
+						x.check(ok, fmt.Sprintf("func=%s operation#%d gets-the-change's-own-vector", prog.FnName(ce), i), x.pos(c),
+							"each operation is executed with the version vector of the change that carries it", "an operation is executed with a vector other than its change's ID.versionVector")
+					}
+				}
+				if i == 0 {
+					x.fail("func="+prog.FnName(ce)+" executes-operations", x.fpos(ce), "Change.Execute no longer hands a version vector to Operation.Execute")
+				}
+			}
+			keys := make([]string, 0, len(origins))
+			for k := range origins {
+				keys = append(keys, k)
+			}
+			sort.Strings(keys)
+			for _, k := range keys {
+				x.C.Add(obTrivial(x.id(), "origin="+k, "", "the function has no vector of its own: it originates one (local edit: nil; remote change: the change's vector)"))
+			}
+		}})
+}
+
+func init() {
+	register(&Rule{ID: "VIS.collect", Min: 5, Text: "what a tree edit collects is decided from the editor's knowledge: in Tree.collectBetween (and its traversal callback) every append to a collection that the function returns (nodes to remove, children to move, nodes to merge) is control-dependent on a decision computed from the operation's version vector (ticketKnown / canDelete's creationKnown, tombstoneKnown): a node the editor had never seen is not merged, moved or removed just because it lies in the range on this replica",
+		Run: func(x *Ctx) {
+			fn := x.fn(crdtPkg + ".(*Tree).collectBetween")
+			vvT := x.P.Named(timePkg + ".VersionVector")
+			if fn == nil || vvT == nil {
+				x.C.Unresolved(x.id(), "Tree.collectBetween")
+				return
+			}
+			consults := func(v ssa.Value) bool {
+				return prog.DependsOn(v, func(w ssa.Value) bool {
+					c, ok := prog.Strip(w).(*ssa.Call)
+					if !ok {
+						return false
+					}
+					for _, a := range c.Call.Args {
+						if isNamed(a.Type(), vvT) {
+							return true
+						}
+					}
+					return false
+				})
+			}
+			n := 0
+			var fns []*ssa.Function
+			made := map[*ssa.Function]*ssa.MakeClosure{}
+			var addFn func(f *ssa.Function)
+			addFn = func(f *ssa.Function) {
+				for _, g := range fns {
+					if g == f {
+						return
+					}
+				}
+				fns = append(fns, f)
+				for _, b := range f.Blocks {
+					for _, ins := range b.Instrs {
+						if mc, ok := ins.(*ssa.MakeClosure); ok {
+							if g, isF := mc.Fn.(*ssa.Function); isF {
+								made[g] = mc
+								addFn(g)
+							}
+						}
+					}
+				}
+			}
+			addFn(fn)
+			cnt := map[string]int{}
+			for _, f := range fns {
+				for _, c := range builtinCalls(f, "append") {
+					// destination: the variable the result is stored to
+					dst := ""
+					for _, r := range *c.Value().Referrers() {
+						if st, ok := r.(*ssa.Store); ok {
+							switch a := st.Addr.(type) {
+							case *ssa.FreeVar:
+								dst = a.Name()
+							case *ssa.Alloc:
+								dst = a.Comment
+							}
+						}
+					}
+					if dst == "" {
+						continue
+					}
+					n++
+					cnt[dst]++
+					ok := false
+					// the site's own control dependences, then those of the place where its closure is made
+					for at := c.Block(); at != nil; {
+						for _, ifi := range x.P.ControlDeps(at) {
+							if consults(ifi.Cond) {
+								ok = true
+							}
+						}
+						mc := made[at.Parent()]
+						if mc == nil {
+							break
+						}
+						at = mc.Block()
+					}
+					x.check(ok, fmt.Sprintf("func=%s collect=%s#%d decided-from-version-vector", prog.FnName(fn), dst, cnt[dst]), x.pos(c),
+						"the node is collected under a decision that consults the operation's version vector", "a node is added to "+dst+" without any decision that consults the operation's version vector: nodes the editor never saw (concurrent splits/inserts) are merged, moved or removed on this replica only")
+				}
+			}
+			if n < 5 {
+				x.C.Vacuous(x.id()+" collection sites", n, 5)
 			}
 		}})
 }
